@@ -37,6 +37,7 @@ type srvCfg struct {
 	cnTasks    bool // CloseNotify requested from other goroutines
 	deferPct   int  // % of answers built and written later by another goroutine
 	doubleConn bool // two connections may reach the listener before it is served
+	stallPct   int  // % of synchronous answers whose transport write stalls until resumed
 	force      *srvForce // enumerated fault placement (sweep)
 	hdr        *hdrForce // enumerated request header (C16 sweep)
 }
@@ -62,6 +63,7 @@ type plan struct {
 	rc     uint32
 	panics bool
 	later  bool // the answer is built and written later, from another goroutine
+	stall  bool // the peer has stopped reading: the answer's write parks inside the transport
 }
 
 type sentMsg struct {
@@ -228,6 +230,9 @@ func (w *srvWorld) handler(hname string) diam.HandlerFunc {
 			if len(m.AVP) > 0 {
 				a.NewAVP(avpSimOctets, 0, 0, datatype.OctetString(m.AVP[0].Data.Serialize()))
 			}
+			if pl.stall && !w.closing.Load() && inv.conn >= 0 && inv.conn < len(w.conns) {
+				w.conns[inv.conn].sc.ArmWriteFault(&WriteFault{Kind: "stall", After: 3})
+			}
 			_, err := a.WriteTo(c)
 			inv.writeErr = err
 		}
@@ -384,6 +389,9 @@ func (w *srvWorld) genConn(i int, dialled, late bool) *peerConn {
 		}
 		if sm.plan.answer && cfg.deferPct > 0 {
 			sm.plan.later = t.Draw(100) >= 100-cfg.deferPct
+		}
+		if sm.plan.answer && !sm.plan.later && cfg.stallPct > 0 {
+			sm.plan.stall = t.Draw(100) >= 100-cfg.stallPct
 		}
 		if sm.plan.answer {
 			switch t.Pick(3, 3, 1, 1, 1) {
@@ -677,6 +685,11 @@ func (w *srvWorld) runInner() {
 				}
 			}
 		}
+		for _, pc := range w.conns {
+			if pc.connected && pc.sc.Stalled() {
+				acts = append(acts, act{kind: "resume-write", pc: pc, w: 3})
+			}
+		}
 		w.mu.Lock()
 		nDef := len(w.deferred)
 		w.mu.Unlock()
@@ -784,6 +797,10 @@ func (w *srvWorld) runInner() {
 			if !w.regTask(func() { dc.(diam.CloseNotifier).CloseNotify() }) {
 				return
 			}
+		case "resume-write":
+			a.pc.sc.Resume()
+			e.Act("resume-write", "%s", a.pc.name)
+			e.Probe("answer-write-stalled")
 		case "deferred-answer":
 			if !w.flushDeferred(1) {
 				return
@@ -1052,6 +1069,12 @@ func (w *srvWorld) drain() {
 				progress = true
 			}
 		}
+		for _, pc := range w.conns {
+			if pc.connected && pc.sc.Stalled() {
+				pc.sc.Resume()
+				progress = true
+			}
+		}
 		if durable := e.Quiesce(); durable && w.lis.Pending() > 0 {
 			e.Advance(2 * time.Second)
 			progress = true
@@ -1090,13 +1113,22 @@ func (w *srvWorld) drain() {
 		w.connect(pc)
 		pc.sc.Deliver(pc.stream)
 		pc.sent = len(pc.stream)
-		for r := 0; r < 8; r++ {
+		for r := 0; r < 12; r++ {
 			if e.Quiesce() && w.lis.Pending() > 0 {
 				e.Advance(2 * time.Second)
 			}
+			for _, x := range w.conns {
+				if x.connected && x.sc.Stalled() {
+					x.sc.Resume()
+				}
+			}
 			w.mu.Lock()
 			parked := append([]*invocation{}, w.parked...)
+			nDef := len(w.deferred)
 			w.mu.Unlock()
+			if nDef > 0 && !w.flushDeferred(nDef) {
+				return
+			}
 			for _, inv := range parked {
 				w.release(inv)
 			}
@@ -1115,6 +1147,7 @@ func (w *srvWorld) teardown() {
 	w.closing.Store(true)
 	for _, pc := range w.conns {
 		if pc.connected {
+			pc.sc.Resume()
 			pc.sc.EndRead(io.EOF, false)
 		}
 	}
